@@ -3,7 +3,8 @@
 (a) differential monitor: sdeint_adjoint forward outputs torch.equal to sdeint with an equal-entropy Brownian object
     (every solver x noise cell, 2 / many output times, logqp on/off, extra state);
 (b) gradient-convergence monitor: gradients from sdeint_adjoint for losses on subsets of the output times against
-    closed-form gradients (autograd through the exact solution on the same Brownian path) for dt = 2^-4..2^-8, every
+    closed-form gradients (autograd through the exact solution on the same Brownian path) for dt = 2^-4..2^-8 (2^-9 for
+    order-0.5 adjoint solvers), every
     admissible (method, adjoint_method) pair; plus generic neural SDEs against backprop through sdeint at dt/16;
 (c) only the tensors asked for receive gradients.
 """
@@ -22,7 +23,7 @@ RULE = ("case = forward-equality (cell, ts layout, logqp) | gradient convergence
         "step sizes measured with a true gradient of norm > 1e-3 (b), >= 3 tensors inspected (c); distinct = distinct "
         "case keys")
 ASSUMPTIONS = ["gradient error = relative RMS over B=128 paths of the per-path gradient vectors (y0 row and that path's own "
-               "parameter copies), same Brownian object at all step sizes; required: fitted slope >= 0.2, error at dt=2^-8 at most half the error at dt=2^-4 and below 0.15 "
+               "parameter copies), same Brownian object at all step sizes; required: fitted slope >= 0.2, error at the finest level at most half the error at dt=2^-4 and below 0.15 "
                "(order-0.5 adjoint solvers) / 0.05 (others); or already below 2e-3 at every level",
                "closed-form gradients by autograd through vt/closed_forms.py exact solutions"]
 REQUIRED_COUNTERS = ["forward_equal_checks", "logqp_forward_checks", "gradient_ladders", "subset_losses",
@@ -213,9 +214,11 @@ def run_grad(case):
             loss = loss + (yt * w[j]).sum()
         return _path_grads(loss, y0, params, per_path)
 
-    errs, _, dts, gn = _ladder(fam, case["method"], case["adjoint_method"], y0v, tsl, w, rng.randrange(1, 10 ** 9), levy,
-                               true_grad, range(4, 9), per_path)
     half = not (nt == "additive" or case["adjoint_method"] == "milstein")
+    # order-0.5 adjoint solvers: per-level errors are noisy realisations of a sqrt(dt) law (observed final/first ratios
+    # 0.10-0.26 over six levels, but up to 0.51 over five), so their ladder gets one more level
+    errs, _, dts, gn = _ladder(fam, case["method"], case["adjoint_method"], y0v, tsl, w, rng.randrange(1, 10 ** 9), levy,
+                               true_grad, range(4, 10) if half else range(4, 9), per_path)
     ctx = (f"sde_type={st} noise={nt} family={case['family']} method={case['method']} "
            f"adjoint_method={case['adjoint_method']} loss_on={subset} rms|grad|={gn:.3g}")
     sl = _judge(errs, dts, half, ctx, viol, f"adjoint_gradient_not_converging:{st}:{nt}:{case['adjoint_method']}")
